@@ -87,6 +87,22 @@ Fixpoint wcstombs_loop (utf8 : bool) (w : Z) (n : nat) (dest src len cnt : Z) : 
 Definition wcstombs_m (utf8 : bool) (w : Z) (dest src len srcmax : Z) : prog Z :=
   wcstombs_loop utf8 w (Z.to_nat srcmax) dest src len 0.
 
+(* the restartable form used when len is cut to dmax: the continuation also learns the length of the character in front of
+   which the conversion stopped for lack of room (None: the terminator was reached, or the character is not encodable) *)
+Fixpoint wcstombs_loop2 (utf8 : bool) (w : Z) (n : nat) (dest src len cnt : Z) (k : Z -> option Z -> prog Z) : prog Z :=
+  match n with
+  | O => k cnt None
+  | S n' => Load w src (fun wc =>
+      if wc =? 0 then (if len <=? cnt then k cnt None else Store 1 (dest + cnt) 0 (k cnt None))
+      else match wc_enc utf8 wc with
+           | None => k SIZE_MAX None
+           | Some bs =>
+               let l := Z.of_nat (length bs) in
+               if len <? cnt + l then k cnt (Some l)
+               else store_bytes (dest + cnt) bs (wcstombs_loop2 utf8 w n' dest (src + w) len (cnt + l) k)
+           end)
+  end.
+
 (* ---------- the wrappers ---------- *)
 (* _mbstowcs_s_chk(retvalp, dest, dmax, src, len, destbos); srcmax bounds the model's scan of an unterminated source *)
 Definition mbstowcs_s (c : cfg) (utf8 : bool) (retvalp dest dmax src len destbos : Z) : prog Z :=
@@ -127,14 +143,22 @@ Definition wcstombs_s (c : cfg) (utf8 : bool) (retvalp dest dmax src len destbos
         (if dest =? 0 then Ret tt else (if null_slack c then Fill dest dmax 0 (Ret tt) else Store 1 dest 0 (Ret tt))) ;;; fail_str ESNULLP
       else if dest =? src then fail_str ESOVRLP
       else
-        l <- wcstombs_m utf8 w dest src (if negb (dest =? 0) && (dmax <? len) then dmax else len) (rmax_str c + 1) ;;
-        Store 8 retvalp l (
+        let finish (l : Z) : prog Z :=
           if (0 <? l) && (l <? dmax) then
             (if dest =? 0 then Ret EOK
              else if null_slack c then Fill (dest + l) (dmax - l) 0 (Ret EOK) else Store 1 (dest + l) 0 (Ret EOK))
           else
             let rc := if l <=? rmax_str c then ESNOSPC else EILSEQ in
-            if dest =? 0 then Ret rc else handle_error c 1 dest dmax rc ;;; Ret rc) in
+            if dest =? 0 then Ret rc else handle_error c 1 dest dmax rc ;;; Ret rc in
+        if negb (dest =? 0) && (dmax <? len) then
+          (* len cut to dmax (the C library may store len bytes): a stop in front of a character that len would have admitted is "no room" *)
+          wcstombs_loop2 utf8 w (Z.to_nat (rmax_str c + 1)) dest src dmax 0 (fun cnt nxt =>
+            Store 8 retvalp cnt (finish (match nxt with
+                                          | Some cl => if (cnt <? dmax) && (cnt + cl <=? len) then dmax else cnt
+                                          | None => cnt
+                                          end)))
+        else
+          l <- wcstombs_m utf8 w dest src len (rmax_str c + 1) ;; Store 8 retvalp l (finish l) in
     if dest =? 0 then body
     else if dmax =? 0 then fail_str ESZEROL
     else if destbos =? BOS_UNKNOWN then
